@@ -5,6 +5,7 @@ import (
 	"encoding/json"
 	"fmt"
 	"math"
+	"strings"
 
 	"github.com/nspcc-dev/neo-go/pkg/util"
 	"github.com/nspcc-dev/neo-go/pkg/vm/stackitem"
@@ -109,7 +110,8 @@ func (w *w3World) nefManifest(name string) ([]byte, []byte) {
 	return nef, m
 }
 
-// nnsState reads owner and admin of an existing domain from the chain.
+// nnsState reads owner and admin of a domain from the chain (nil, nil when
+// the name is missing, expired, or a committee-owned TLD).
 func (w *w3World) nnsState(name string) (owner, admin *w3Princ) {
 	resolve := func(it stackitem.Item) *w3Princ {
 		b := ItemBytes(it)
@@ -123,10 +125,14 @@ func (w *w3World) nnsState(name string) (owner, admin *w3Princ) {
 		return &w3Princ{Name: "unknown:" + h.StringLE()[:8], Hash: h}
 	}
 	it, err := w.Read(w.H["nns"], "ownerOf", name)
-	require.NoError(w.T, err, "ownerOf "+name)
+	if err != nil {
+		return nil, nil
+	}
 	owner = resolve(it)
 	it, err = w.Read(w.H["nns"], "properties", name)
-	require.NoError(w.T, err, "properties "+name)
+	if err != nil {
+		return owner, nil
+	}
 	if m, ok := it.(*stackitem.Map); ok {
 		for _, el := range m.Value().([]stackitem.MapElement) {
 			if k, _ := el.Key.TryBytes(); string(k) == "admin" {
@@ -135,6 +141,46 @@ func (w *w3World) nnsState(name string) (owner, admin *w3Princ) {
 		}
 	}
 	return owner, admin
+}
+
+// nnsFacts fills the state-dependent facts of an NNS call from the chain:
+// owner and admin of the NameState the guard of that method reads.
+func (w *w3World) nnsFacts(method string, c *w3Call) {
+	c.Owner, c.Admin, c.Shallow = nil, nil, false
+	str := func(i int) string {
+		if i >= len(c.Args) {
+			return ""
+		}
+		switch x := c.Args[i].(type) {
+		case string:
+			return x
+		case []byte:
+			return string(x)
+		}
+		return ""
+	}
+	switch method {
+	case "registerTLD", "setPrice", "update", "_deploy", "_initialize":
+	case "register":
+		frags := strings.Split(str(0), ".")
+		c.Shallow = len(frags) == 2
+		if len(frags) > 2 {
+			c.Owner, c.Admin = w.nnsState(strings.Join(frags[1:], "."))
+		}
+	case "transfer":
+		c.Owner, c.Admin = w.nnsState(str(1))
+	case "renew", "updateSOA", "setAdmin":
+		c.Owner, c.Admin = w.nnsState(str(0))
+	default:
+		// record methods address the longest registered suffix (tokenIDFromName)
+		frags := strings.Split(str(0), ".")
+		for i := 0; i+1 < len(frags); i++ {
+			if o, a := w.nnsState(strings.Join(frags[i:], ".")); o != nil {
+				c.Owner, c.Admin = o, a
+				return
+			}
+		}
+	}
 }
 
 func w3AuditBlob(epoch int64, cid, key []byte) []byte {
@@ -288,7 +334,7 @@ func w3Variants() []*w3Variant {
 	add("container", "delete", 3, "existing container", func(w *w3World, i int) *w3Call {
 		// make sure there is something to delete
 		if it, err := w.Read(w.H["container"], "owner", w.cidX2); err != nil || len(ItemBytes(it)) == 0 {
-			w.cidX2 = w.putContainer(false)
+			w.cidX2, _ = w.putContainer(false)
 		}
 		return &w3Call{Args: []any{w.cidX2, w3Fill(64, 1), w3Fill(10, 3)}, Princ: w3np(3)}
 	})
@@ -375,9 +421,10 @@ func w3Variants() []*w3Variant {
 	}))
 
 	// -- netmap
-	add("netmap", "addPeerIR", 1, "", simple(func(w *w3World, i int) []any {
-		return []any{w3NodeBlob(w.princ("N2").Pub, byte(i))}
-	}))
+	add("netmap", "addPeerIR", 1, "", func(w *w3World, i int) *w3Call {
+		p := w.princ("N2")
+		return &w3Call{Args: []any{w3NodeBlob(p.Pub, byte(i))}, Princ: []*w3Princ{p}}
+	})
 	add("netmap", "addPeer", 1, "", func(w *w3World, i int) *w3Call {
 		p := w.princ("N2")
 		return &w3Call{Args: []any{w3NodeBlob(p.Pub, byte(i))}, Princ: []*w3Princ{p}}
@@ -457,6 +504,59 @@ func w3Variants() []*w3Variant {
 		o, ad := w.nnsState("xfer.neofs")
 		return &w3Call{Args: []any{"xfer.neofs", nil}, Princ: w3np(2), Nulls: []int{1}, Owner: o, Admin: ad}
 	})
+
+	// -- the target of the call already exists / the call is a repeat
+	// (besides these, the sweep re-sends the arguments of every call that
+	// succeeded, to the same method and to its sibling entry points)
+	sig, pub, tok := w3Fill(64, 1), w3Fill(33, 2), w3Fill(10, 3)
+	add("container", "put", 4, "container already stored", simple(func(w *w3World, i int) []any { return []any{w.valY, sig, pub, tok} }))
+	add("container", "put", 5, "container already stored without the meta flag, metaOnChain=true", simple(func(w *w3World, i int) []any {
+		return []any{w.valY, sig, pub, tok, true}
+	}))
+	add("container", "put", 5, "container already stored with the meta flag, metaOnChain=false", simple(func(w *w3World, i int) []any {
+		return []any{w.valX, sig, pub, tok, false}
+	}))
+	add("container", "putNamed", 6, "container already stored, new alias", simple(func(w *w3World, i int) []any {
+		return []any{w.valY, sig, pub, tok, fmt.Sprintf("c03again%d", i), ""}
+	}))
+	add("container", "delete", 3, "container already deleted", simple(func(w *w3World, i int) []any { return []any{w.cidGone, sig, tok} }))
+	add("container", "delete", 3, "container never stored", simple(func(w *w3World, i int) []any { return []any{w3ID("never", 0), sig, tok} }))
+	add("container", "commitContainerListUpdate", 2, "nothing pending", simple(func(w *w3World, i int) []any { return []any{w3ID("nothing", 0), []byte{1}} }))
+	add("netmap", "addPeer", 1, "node already among the candidates", func(w *w3World, i int) *w3Call {
+		p := w.princ("N1")
+		return &w3Call{Args: []any{w3NodeBlob(p.Pub, 2)}, Princ: []*w3Princ{p}}
+	})
+	add("netmap", "addNode", 1, "key already among the candidates", func(w *w3World, i int) *w3Call {
+		p := w.princ("N1")
+		node := []any{[]any{"grpcs://192.0.2.1:8090"}, stackitem.NewMapWithValue([]stackitem.MapElement{{Key: stackitem.Make("Capacity"), Value: stackitem.Make("1")}}), p.Pub, int64(1)}
+		return &w3Call{Args: []any{node}, Princ: []*w3Princ{p}}
+	})
+	add("neofsid", "addKey", 2, "key already bound", simple(func(w *w3World, i int) []any {
+		return []any{w3OwnerID(w.princ("U").Hash), []any{w3Fill(33, 5)}}
+	}))
+	add("balance", "lock", 5, "onto an existing lock account", func(w *w3World, i int) *w3Call {
+		U := w.princ("U")
+		return &w3Call{Args: []any{[]byte("again"), U.Hash, w.lockAddr, int64(1), int64(1000)}, Princ: []*w3Princ{nil, U, nil, nil, nil}}
+	})
+	add("nns", "register", 7, "live second-level name", func(w *w3World, i int) *w3Call {
+		P := w.princ("P")
+		a := withSOA("c03.neofs", P.Hash)
+		pr := w3np(len(a))
+		pr[1] = P
+		return &w3Call{Args: a, Princ: pr}
+	})
+	add("nns", "addRecord", 3, "record already present", simple(func(w *w3World, i int) []any { return []any{"xfer.neofs", int64(16), "keep"} }))
+	for _, c := range []string{"neofs", "neofs_nd"} {
+		c := c
+		add(c, "innerRingCandidateAdd", 1, "candidate already listed", func(w *w3World, i int) *w3Call {
+			p := w.princ("cand")
+			return &w3Call{Args: []any{p.Pub}, Princ: []*w3Princ{p}}
+		})
+		add(c, "onNEP17Payment", 3, "direct invocation with the ignore-deposit marker", func(w *w3World, i int) *w3Call {
+			U := w.princ("U")
+			return &w3Call{Args: []any{U.Hash, int64(1), []byte{0x57, 0x0b}}, Princ: []*w3Princ{U, nil, nil}}
+		})
+	}
 
 	// -- reputation
 	add("reputation", "put", 3, "", simple(func(w *w3World, i int) []any {
